@@ -90,9 +90,19 @@ func c15Program(r *rand.Rand) gast.Program {
 	lit := c15Lit(r)
 	body = append(body, gast.Assign{Name: "again1", X: lit}, gast.IncDec{Name: "again1", Op: "++"}, gast.Assign{Name: "again2", X: lit})
 	body = append(body, gast.Return{X: gast.ArrayLit{Els: []gast.Expr{id("v0"), id("v1"), id("v2"), id("v3"), id("arr"), id("again1"), id("again2"), id("FI"), id("FF"), id("FS"), id("FB"), id("FBig")}}})
+	// functions working on local copies of a parameter, a global, a literal and an array element
+	viaLocal := gast.FuncDef{Name: "viaLocal", Params: []string{"p"}, Body: []gast.Stmt{
+		gast.Local{Name: "c"}, gast.Assign{Name: "c", X: id("p")}, mut("c"),
+		gast.Local{Name: "l"}, gast.Assign{Name: "l", X: c15Lit(r)}, mut("l"),
+		gast.Local{Name: "g"}, gast.Assign{Name: "g", X: id(pickV())}, mut("g"),
+		gast.Local{Name: "e"}, gast.Assign{Name: "e", X: gast.Index{X: id("arr"), I: gast.IntLit{V: 0}}}, mut("e"),
+		gast.Return{X: gast.ArrayLit{Els: []gast.Expr{id("c"), id("p"), id("l"), id("g"), id("e")}}}}}
+	for k := 0; k < 1+r.Intn(3); k++ {
+		body = append(body[:len(body)-1], gast.Assign{Name: fmt.Sprintf("vl%d", k), X: gast.Call{Fn: "viaLocal", Args: []gast.Expr{id(pickV())}}}, body[len(body)-1])
+	}
 	bump := gast.FuncDef{Name: "bump", Params: []string{"p"}, Body: []gast.Stmt{mut("p"), gast.Return{X: id("p")}}}
 	quiet := gast.FuncDef{Name: "quiet", Params: []string{"p"}, Body: []gast.Stmt{mut("p"), mut("p")}}
-	return gast.Program{Stmts: append([]gast.Stmt{bump, quiet}, body...)}
+	return gast.Program{Stmts: append([]gast.Stmt{bump, quiet, viaLocal}, body...)}
 }
 
 func c15(c *ev.Ctx) {
